@@ -53,7 +53,7 @@ class Run:
             return v, P.extract_edb(m, edb_tables)
         return v, None
 
-    def witnesses(self, edb_tables, side, rows):
+    def witnesses(self, edb_tables, side, rows, extra_goals=()):
         """Solver-chosen EDBs within the bounds on which `rows` (an answer) is non-empty. Two goals:
         (1) 'stress': every EDB slot present and two rows of some relation agree on all but one column
             (projections collapse them, joins multiply them) - falls back to all slots present;
@@ -77,7 +77,9 @@ class Run:
             return S.AND(*cs)
         two = S.OR(*[S.AND(a.p, b.p, S.NOT(E.tup_eq(a.c, b.c))) for i, a in enumerate(rows) for b in rows[:i]])
         out = []
-        for goals in ([S.AND(allp, near("last"), ne)], [S.AND(allp, near("first"), ne), S.AND(allp, ne)], [two, ne]):
+        plan = [[S.AND(g_, ne)] for g_ in extra_goals if g_ is not False] + \
+               [[S.AND(allp, near("last"), ne)], [S.AND(allp, near("first"), ne), S.AND(allp, ne)], [two, ne]]
+        for goals in plan:
             for goal in goals:
                 if goal is False:
                     continue
@@ -162,6 +164,10 @@ class Run:
                        "solver_timeout_ms": self.cfg["timeout_ms"]},
             "known_findings_suppressed": self.known,
             "inconclusive": self.inconclusive,
+            "functions_encoded": REAL_CODE.get(self.prop, REAL_CODE["*"]),
+            "encoding": "the IR plans are re-dumped from /repo's working tree by the natively built bridge (native/ilp) on "
+                        "every run and executed symbolically by p/encode.py (operator semantics of "
+                        "code_generator::generate_collection_tuples); queries are SMT-LIB2 scripts (p/smt.py) decided by z3",
         }
         cov.update(extra_cov)
         vc.write_evidence(self.prop, self.tier, level, cov, assumptions, time.time() - self.t0, len(self.violations))
@@ -180,6 +186,21 @@ def with_k(run, fn):
                 raise
     raise last
 
+
+REAL_CODE = {
+    "*": ["IQLEngine::execute_tuples_profiled (orchestration recorded by hooks: which IR runs for which head, order, "
+          "recursion strategy, partitioning)", "parser::parse_program", "Rule::is_safe", "recursion::{has_recursion,stratify,"
+          "build_dependency_graph,find_sccs}", "SipRewriter::rewrite_program", "magic_sets::MagicSetRewriter::{detect_query_"
+          "bindings,rewrite_program}", "IRBuilder::build_ir", "JoinPlanner::plan_joins", "SubplanSharer::share_subplans",
+          "BooleanSpecializer::specialize", "Optimizer::optimize", "IQLEngine::{get_rule_heads,detect_recursion_info,"
+          "topological_sort_ir_nodes,execute_shared_views}", "CodeGenerator::{detect_transitive_closure_pattern,"
+          "detect_bound_tc_pattern,detect_recursive_union_for_relation,contains_join,execute_with_config}"],
+    "C05": ["IRBuilder::build_ir (plans under test)", "Optimizer::optimize", "Optimizer::{eliminate_identity_maps,"
+            "eliminate_always_true_filters,eliminate_always_false_filters,fuse_consecutive_maps,fuse_consecutive_filters,"
+            "pushdown_filters,eliminate_empty_unions,apply_all_rules,fuse_to_flatmap,fuse_to_join_flatmap} (hook verif_pass)",
+            "JoinPlanner::plan_joins", "BooleanSpecializer::specialize", "SubplanSharer::share_subplans (per head and over all "
+            "heads of a program)", "Optimizer::remap_projection_for_join_flatmap (Kani)", "CodeGenerator::execute (replay)"],
+}
 
 ASSUME_P = [
     "operator semantics of IRNode as implemented by the DD closures in code_generator (encode.py PlanEval) - validated "
@@ -220,9 +241,24 @@ def corpus(run, kinds, with_templates=False, rec_templates=0):
             continue
         out.append((p, k))
         made += 1
-    # interleave the families so that a run cut short by its time budget still touches all of them
-    random.Random(vc.seed() + 99).shuffle(out)
-    return out
+    # interleave the families round-robin (each family shuffled by the seed) so that a run cut short by its time
+    # budget still touches all of them, the cheap fixed families first
+    rnd = random.Random(vc.seed() + 99)
+    fam = {}
+    for p, k in out:
+        key = k
+        if k == "rec" and p.get("query") == "__query__":
+            key = "rec-magic"
+        fam.setdefault(key, []).append((p, k))
+    for v in fam.values():
+        rnd.shuffle(v)
+    order = sorted(fam, key=lambda x: (x not in ("rec-magic", "template"), x))
+    res = []
+    while any(fam.values()):
+        for key in order:
+            if fam[key]:
+                res.append(fam[key].pop())
+    return res
 
 
 def prepare(run, program, kind, case, arities):
@@ -282,9 +318,13 @@ def check_vs_reference(run, program, kind, configs, key_fn):
             inputs = dict(edb)
             inputs.update(P.concrete_tables(P.seeds_of(rep, set(arities))))
             plan = E.run_script(rep["events"], inputs, kk)
-            return edb, ref_tables.get(program["query"], []), ref_conv, plan
+            try:
+                coll = S.name_bool(R.agg_collision_goal(program, ref_tables))
+            except E.Unsupported:
+                coll = False
+            return edb, ref_tables.get(program["query"], []), ref_conv, plan, coll
         try:
-            (edb, ref, ref_conv, plan), k = with_k(run, build)
+            (edb, ref, ref_conv, plan, coll), k = with_k(run, build)
         except E.Unsupported as ex:
             run.stats.note_unsupported(str(ex))
             run.skipped.append({"program": text, "config": P.cfg_str(cfg), "why": str(ex)})
@@ -292,7 +332,7 @@ def check_vs_reference(run, program, kind, configs, key_fn):
         side = list(plan.conv) + list(ref_conv)
         # solver-directed witness: an EDB on which the reference answer is non-empty (two rows if possible);
         # the real engine must agree with the independent concrete evaluator on it
-        wits = run.witnesses(edb, side, ref)
+        wits = run.witnesses(edb, side, ref, extra_goals=[coll])
         wit = wits[0] if wits else None
         differs = False
         for wit in wits:
@@ -426,10 +466,12 @@ def check_pairwise(run, program, kind, cases, key, what):
     n = run.rows_for(program, kind)
     groups = {}
     order = []
+    errored = []
     for case in cases:
         ar2 = dict(arities)
         pr = prepare(run, case.program, kind, case, ar2)
         if pr is None:
+            errored.append(case)
             continue
         rep = pr["rep"]
         sk = P.script_key(rep, set(arities), extra=str(case.workers))
@@ -440,6 +482,28 @@ def check_pairwise(run, program, kind, cases, key, what):
     run.programs += 1
     if len(order) < 1:
         return
+    if errored:
+        # the engine answers under some cases and fails under others: that already is a difference
+        okc = groups[order[0]]["case"]
+        w = P.witness_edb(arities)
+        a0, e0 = run.engine_answer(okc, w)
+        for bad in errored[:3]:
+            a1, e1 = run.engine_answer(bad, w)
+            if (a0 is None) != (a1 is None):
+                kk = key(program, kind, groups[order[0]], {"case": bad, "members": [bad.label or P.cfg_str(bad.cfg)]}) if callable(key) else key
+                run.decided += 1
+                run.nontrivial += 1
+                run.record({"program": text, "verdict": "error-vs-answer", "a": okc.describe(), "b": bad.describe(),
+                            "answer_a": sorted(a0) if a0 is not None else e0, "answer_b": sorted(a1) if a1 is not None else e1})
+                run.violation(kk + "-error", f"{what}: the engine answers {text!r} under {okc.label or P.cfg_str(okc.cfg)} but fails "
+                                             f"under {bad.label or P.cfg_str(bad.cfg)}: {e1}",
+                              {"property": run.prop, "engine": "P", "kind": "pairwise", "program": text,
+                               "a": okc.describe(), "b": bad.describe(), "a_text": okc.text, "b_text": bad.text,
+                               "a_cfg": okc.cfg, "b_cfg": bad.cfg, "a_workers": okc.workers, "b_workers": bad.workers,
+                               "a_history": okc.history, "b_history": bad.history, "edb": w,
+                               "answer_a": sorted(a0) if a0 is not None else None,
+                               "answer_b": sorted(a1) if a1 is not None else None, "error_a": e0, "error_b": e1})
+                break
     if len(order) == 1:
         run.record({"program": text, "distinct_plans": 1, "verdict": "identical-plans",
                     "members": groups[order[0]]["members"][:6]})
@@ -518,6 +582,18 @@ def check_pairwise(run, program, kind, cases, key, what):
             continue
         a1, e1 = run.engine_answer(base["case"], cex)
         a2, e2 = run.engine_answer(g["case"], cex)
+        if a1 == a2 and g["case"].workers > 1:
+            # the solver's partition is an arbitrary function of the tuple; the real hash may split this EDB
+            # differently: try the other worker counts on the same database before giving up
+            for w in (2, 3, 4, 5, 7, 8):
+                alt = P.Case(g["case"].program, g["case"].text, g["case"].cfg, workers=w, history=g["case"].history,
+                             label=f"workers={w}")
+                a3, e3 = run.engine_answer(alt, cex)
+                if a3 != a1:
+                    a2, e2 = a3, e3
+                    g = dict(g)
+                    g["case"] = alt
+                    break
         sample.update({"edb": cex, "answer_a": sorted(a1) if a1 is not None else e1,
                        "answer_b": sorted(a2) if a2 is not None else e2})
         run.record(sample)
